@@ -13,8 +13,7 @@ ASSUMPTIONS = C02.ASSUMPTIONS
 EXHAUSTIVE = {'quick': False, 'thorough': False}
 NO_SHRINK = True
 TECHNIQUE = 'Coq proof (block read = flat address space model with zero fill; iteration = ascending overlapping registers cut at first non-zero callback result) + correspondence over every window'
-LEVEL_TEXT = ('Properties_C03.v: a block read succeeds iff all n addresses are mapped and then returns for each address the stored word (zero for non-readable areas), otherwise NOENTRY with the first unmapped '
-              'address; n = 0 always succeeds; range iteration calls the callback exactly for the registers overlapping the range, ascending, stopping at the first non-zero result (negative = FAILURE at that register).')
+LEVEL_TEXT = ('Theorems in Properties_C03.v: zero length; NOENTRY iff an address of the request is unmapped, with the first such address; a successful block read delivers for every address of the request the word of the area mapping it, zero for non-readable areas, across area borders (flat word-memory abstraction); it reads back exactly what a successful block write stored; register_foreach_in visits exactly the registers overlapping the range, in order, and stops at the first non-zero callback result.  Model tied to the C by correspondence.')
 LEVEL_NOTE = 'Trusted: Coq kernel; hand model of registers/core.c read/iteration paths (correspondence-tested on every window); ASan for the destination. No axioms.'
 
 def gen(rng, tier):
